@@ -70,6 +70,12 @@ def biased_request(rng, spec, prev):
         return [comps[i] for i in sorted(rng.choice(len(comps), k, replace=False))], False
     others = [a for a in avail if a not in comps]
     extra = [others[int(rng.integers(len(others)))]] if others and rng.random() < 0.5 else []
+    if rng.random() < 0.3:
+        # the tensor name together with one of its own components, or a
+        # repeated name: each must still come back once, aligned with 'it'
+        extra = extra + [comps[int(rng.integers(len(comps)))]]
+        if rng.random() < 0.5:
+            extra = extra + [extra[-1]]
     return [t] + extra, True
 
 
@@ -132,7 +138,9 @@ def run_case(spec0):
             its = [int(i) for i in data['it']]
             comp = []
             for w in want:
-                comp += etgen.TENSORS.get(w, [w])
+                for cn in etgen.TENSORS.get(w, [w]):
+                    if cn not in comp:
+                        comp.append(cn)
             # hit/miss pattern of this call w.r.t. the cache before it
             hits = misses = 0
             for cname in comp:
